@@ -287,3 +287,15 @@ package container
 //@ property C06
 //@ assigns nothing
 //@ ensures [implements-predicate] result != nil && forall(m, *component_definition.Meta, call(result, m) == RImplements(RTypeOf(m.Value), typ) && callpre(result, m) == MetaOK(m))
+
+//@ func FuncName$1
+//@ property C06
+//@ requires [meta-built] MetaOK(m) && m.Type != nil
+//@ assigns nothing
+//@ ensures [exposes-method] implies(result, RHasMethod(m.Type, fn) && RHasMethod(RTypeOf(m.Value), fn))
+
+//@ func FuncNameAndResult$1
+//@ property C06 C09
+//@ requires [meta-built] MetaOK(m)
+//@ assigns nothing
+//@ ensures [exposes-method] implies(result, RHasMethod(RTypeOf(m.Value), fn))
